@@ -192,7 +192,7 @@ impl Property for C15 {
     }
 
     fn cases(tier: Tier) -> u64 {
-        tier.pick(6_400, 120_000)
+        tier.pick(6_400, 500_000)
     }
 
     fn strategy(_tier: Tier) -> BoxedStrategy<Case> {
